@@ -1,7 +1,7 @@
 (** Helpers for running the VPK model against the implementation (correspondence, checks/c13.py).
     Nothing here is used by a theorem. *)
 From Coq Require Import List NArith ZArith Bool Uint63.
-From SV Require Import Fmt.VpkDir Fmt.VpkDirV2 SM.Vpk Fmt.VpkArchName.
+From SV Require Import Fmt.VpkDir Fmt.VpkDirV2 SM.Vpk Fmt.VpkArchName Fmt.VpkNullStr.
 Import ListNotations.
 Open Scope N_scope.
 
@@ -113,5 +113,18 @@ Definition check_decode_v (dc : dcfg) (file : bytes) (ex : option (N * list ent_
   match dec_file_v dc file, ex with
   | None, None => true
   | Some (v, es, f), Some (xv, xs, fd) => (v =? xv) && ent_match xs (load_table es) && dg_eqb (dg f) fd
+  | _, _ => false
+  end.
+
+(** run-length literal used by checks/c13.py for long names and streams *)
+Definition nrep (x n : N) : bytes := repeat x (N.to_nat n).
+
+(** iter_nullstr on a byte stream: the strings it yields as (length, crc32) digests and the number of bytes left, or that it raises. *)
+Fixpoint dgs_eqb (a : list bytes) (b : list (N * N)) : bool :=
+  match a, b with [], [] => true | x :: a', y :: b' => dg_eqb (dg x) y && dgs_eqb a' b' | _, _ => false end.
+Definition check_nullstr_dg (k : ncodec) (bs : bytes) (ex : option (list (N * N) * N)) : bool :=
+  match iter_nullstr_k k bs, ex with
+  | None, None => true
+  | Some (l, r), Some (l', n) => dgs_eqb l l' && (len r =? n)
   | _, _ => false
   end.
